@@ -72,6 +72,7 @@ TRead   == IsEvent("p_read") /\ PRead(Ev.s, Ev.want, Ev.ids) /\ UNCHANGED scn
 TWpart  == IsEvent("p_wpart") /\ PWpart(Ev.ids) /\ UNCHANGED scn
 TWrite  == IsEvent("p_write") /\ (IF Ev.n < 0 THEN PWriteEpipe ELSE PWrite(Ev.ids, Ev.n)) /\ UNCHANGED scn
 TEintr  == IsEvent("p_eintr") /\ (IF Ev.sys = "poll" THEN PPollEintr(Ev.tmo, TimeOf(Ev.clk), Ev.fresh) ELSE PEintr) /\ UNCHANGED scn
+TIoWait == IsEvent("p_iowait") /\ PIoWait(TimeOf(Ev.since)) /\ UNCHANGED scn
 TClose  == IsEvent("p_close") /\ PClose(Ev.s) /\ UNCHANGED scn
 TStuck  == IsEvent("stuck") /\ Stuck(Ev.timer) /\ UNCHANGED scn
 TRunaway == IsEvent("runaway") /\ Runaway /\ UNCHANGED scn
@@ -92,7 +93,7 @@ TEnd ==
 TraceNext ==
   \/ TReset \/ TCall \/ TRet \/ TCommit \/ TChildRd \/ TChildWr \/ TChildEp \/ TChildCl \/ TChildEx
   \/ TChildWk \/ TTick \/ TPoll \/ TBlock \/ TRead \/ TWpart \/ TWrite \/ TClose \/ TStuck \/ TRunaway
-  \/ TCpuSpin \/ TEintr \/ TNote \/ TEnd
+  \/ TCpuSpin \/ TIoWait \/ TEintr \/ TNote \/ TEnd
 
 TraceSpec == TraceInit /\ [][TraceNext]_tvars
 
